@@ -99,6 +99,30 @@ MUTANTS = [
      "                ess = effective_sample_size(samples.log_weights(0.5 * (beta + samples.beta)))\n"),
     ("c18-resume-dup", ["C18"], S + "samplers/smc/base.py",
      "        if store_sample_history and not resumed:", "        if store_sample_history:"),
+    # ---- C05
+    ("c05-smc-drop-jacobian", ["C05"], S + "samplers/smc/base.py",
+     "        ).flatten() + samples.array_to_namespace(log_abs_det_jacobian)\n\n        log_prob = update_at_indices(",
+     "        ).flatten()\n\n        log_prob = update_at_indices("),
+    ("c05-smc-jacobian-sign", ["C05"], S + "samplers/smc/base.py",
+     "        ).flatten() + samples.array_to_namespace(log_abs_det_jacobian)\n\n        log_prob = update_at_indices(",
+     "        ).flatten() - samples.array_to_namespace(log_abs_det_jacobian)\n\n        log_prob = update_at_indices("),
+    ("c05-beta-logq", ["C05"], S + "samples.py",
+     "        return (1 - beta) * self.log_q + beta * log_p_T", "        return beta * self.log_q + beta * log_p_T"),
+    ("c05-nan-propagates", ["C05"], S + "samplers/smc/base.py",
+     "        log_prob = update_at_indices(\n            log_prob, self.xp.isnan(log_prob), -self.xp.inf\n        )\n        return log_prob",
+     "        return log_prob"),
+    ("c05-q-at-z", ["C05"], S + "samplers/smc/base.py",
+     "        log_q = self.prior_flow.log_prob(samples.x)\n        samples.log_q = samples.array_to_namespace(log_q)\n        samples.log_prior = self.log_prior(samples)",
+     "        log_q = self.prior_flow.log_prob(z)\n        samples.log_q = samples.array_to_namespace(log_q)\n        samples.log_prior = self.log_prior(samples)"),
+    ("c05-mcmc-drop-jacobian", ["C05"], S + "samplers/mcmc.py",
+     "            samples.log_likelihood\n            + samples.log_prior\n            + samples.array_to_namespace(log_abs_det_jacobian)\n        )",
+     "            samples.log_likelihood\n            + samples.log_prior\n        )"),
+    ("c05-blackjax-nan", ["C05"], S + "samplers/smc/blackjax.py",
+     "        log_prob = self.xp.where(\n            self.xp.isnan(log_prob), -self.xp.inf, log_prob\n        )\n", ""),
+    ("c05-blackjax-drop-jacobian", ["C05"], S + "samplers/smc/blackjax.py",
+     "        ).flatten() + samples.array_to_namespace(log_abs_det_jacobian)\n\n        # Handle NaN values", "        ).flatten()\n\n        # Handle NaN values"),
+    ("c05-mcmc-prior-ignored-when-inf", ["C05"], S + "samplers/mcmc.py",
+     "        return to_numpy(log_prob).flatten()", "        return np.nan_to_num(to_numpy(log_prob).flatten(), neginf=-1e300)"),
     # ---- C04
     ("c04-logit-jac-sign", ["C04"], S + "utils.py",
      "    log_j = (-xp.log(x) - xp.log1p(-x)).sum(-1)", "    log_j = (-xp.log(x) + xp.log1p(-x)).sum(-1)"),
